@@ -94,6 +94,9 @@ func c19ExpectedSize(cs *c03Case, evs []c03Ev) (int64, bool) {
 			done[x] = true
 		}
 	}
+	if cs.cfg.sizer == "bytes" {
+		return 0, false // the ledger is kept in requests / items
+	}
 	waits := cs.cfg.wfr || !cs.cfg.queue
 	var size int64
 	for rid, ids := range started {
